@@ -55,6 +55,7 @@ pub fn cases_cmd(args: &[String]) {
                             ..cfg
                         },
                     };
+                    let u = if has("cppx") { crate::cppexport::cpp_expressible(&u) } else { u };
                     emit(&mut out, &mk(&u, base_cfg.clone(), "", gid));
                     if has("hints") {
                         for m in ["none", "all", "some"] {
